@@ -292,6 +292,93 @@ impl TaskSetSwarm {
     }
 }
 
+/// "Late coincidence" task sets: a few fast, light tasks (a step of the demand curve almost every
+/// tick, i.e. a long search space) plus a few heavy tasks whose release jitter is chosen so that
+/// their demand curves all step together at one late offset `x` of a long busy window.  The
+/// decisive offset of the analyses then sits deep inside the search space instead of at or near
+/// its start (one heavy task in six is detuned by one tick: near misses).
+pub fn coincidence_taskset(rng: &mut Rng) -> TaskSet {
+    let n_fast = rng.range(1, 3) as usize;
+    let n_heavy = rng.range(2, 5) as usize;
+    let x = match rng.below(3) {
+        0 => rng.range(20, 200),
+        1 => rng.range(100, 900),
+        _ => rng.range(300, 2200),
+    };
+    let mut fast: Vec<u64> = (0..n_fast).map(|_| rng.range(2, 8)).collect();
+    // fast utilisation (per mille) at most 650
+    loop {
+        let u: u64 = fast.iter().map(|p| 1000 / *p).sum();
+        if u <= 650 {
+            break;
+        }
+        let i = rng.index(fast.len());
+        fast[i] += 1;
+    }
+    let u_fast: u64 = fast.iter().map(|p| 1000 / *p).sum();
+    let u_target = match rng.below(4) {
+        0 => rng.range(700, 850),
+        1 | 2 => rng.range(850, 950),
+        _ => rng.range(940, 990),
+    };
+    let u_heavy = u_target.saturating_sub(u_fast).max(120);
+    let mut shares: Vec<u64> = (0..n_heavy).map(|_| rng.range(1, 10)).collect();
+    let total: u64 = shares.iter().sum();
+    for sh in shares.iter_mut() {
+        *sh = (*sh * u_heavy) / total;
+    }
+    let n = n_fast + n_heavy;
+    let mut prios: Vec<u32> = (0..n as u32).collect();
+    rng.shuffle(&mut prios);
+    let mut tasks = Vec::new();
+    for (i, period) in fast.iter().enumerate() {
+        let period = *period;
+        let jitter = if rng.chance(1, 2) { 0 } else { rng.below(2 * period) };
+        let arr = if jitter == 0 && rng.chance(1, 2) {
+            ArrDesc::Periodic(period)
+        } else {
+            ArrDesc::Sporadic(period, jitter)
+        };
+        tasks.push(TaskDesc {
+            arr,
+            wcet: 1,
+            prio: prios[i],
+            deadline: rng.range(1, 3 * period),
+            segs: vec![1],
+            max_np: 1,
+        });
+    }
+    for (h, share) in shares.iter().enumerate() {
+        let period = rng.range(120, 900);
+        let mut wcet = ((share * period + 500) / 1000).max(2);
+        if h == 0 {
+            wcet = wcet.max(40);
+        }
+        let mut jitter = (period - x % period) % period + period * rng.weighted(&[5, 3, 1]) as u64;
+        if rng.chance(1, 6) {
+            jitter = if rng.chance(1, 2) { jitter + 1 } else { jitter.saturating_sub(1) };
+        }
+        let arr = match rng.below(4) {
+            0 | 1 => ArrDesc::Sporadic(period, jitter),
+            2 => ArrDesc::Jittered(Box::new(ArrDesc::Periodic(period)), jitter),
+            _ => ArrDesc::Propagated(Box::new(ArrDesc::Periodic(period)), jitter),
+        };
+        let segs = composition(rng, wcet, 4);
+        let max_np = rng.range(1, wcet);
+        tasks.push(TaskDesc {
+            arr,
+            wcet,
+            prio: prios[n_fast + h],
+            deadline: rng.range((period / 2).max(1), 3 * period),
+            segs,
+            max_np,
+        });
+    }
+    // any order of the tasks
+    rng.shuffle(&mut tasks);
+    TaskSet { tasks, limit: 20_000 }
+}
+
 pub fn random_taskset(rng: &mut Rng, sw: &TaskSetSwarm) -> TaskSet {
     let n = sw.n_tasks;
     // split utilisation
